@@ -19,6 +19,7 @@ OBLIGATIONS = [
     "Pkgcore.C27.reconstruct_deconstruct",
     "Pkgcore.C27.temp_rename_prefix",
     "Pkgcore.C27.tmpOf_not_listed",
+    "Pkgcore.C27.store_failure_keeps_old",
 ]
 TRUSTED = [
     "str.split('=',1), '\\t'.join/split, str.strip (white-space table generated from str.isspace), sorted() on distinct keys, '%x'/rjust, "
@@ -36,7 +37,10 @@ ASSUMPTIONS = [
 RULE = ("metadata dicts for flat_hash.database and md5_cache: 0-12 of the known keys plus unknown ones, values with leading/trailing/inner blanks, tabs, "
         "'=', other white space, non-ASCII, empty; _chf_ objects with float/int mtimes or 128-bit md5s; _eclasses_ absent, empty or 1-5 eclasses with "
         "paths containing blanks/unicode; stored under one- to three-level cpvs into a directory that already holds entries and a stale temporary "
-        "file; re-read and listed; a subset of stores is crashed (fork + _exit before each os-level operation, SIGXFSZ mid-write). ~3% of dicts contain "
+        "file; re-read and listed; a subset of stores (replacing an existing entry in two of three cases) is made to fail at every os-level operation: "
+        "death before it (fork + _exit), error return from it once, error return from it and from every later call of the same kind, error "
+        "return followed by a death at one of the next three operations, SIGXFSZ mid-write, and an exception raised while a value is rendered; "
+        "after each the previous entry or the new one must be readable and listed. ~3% of dicts contain "
         "a multi-line value (outside the property's domain, model-vs-code only). non-trivial = at least 3 known keys and a value with outer white space, "
         "'=' or non-ASCII")
 
@@ -327,7 +331,7 @@ def run(ctx):
                 ctx.violation(case, f"read back differs in {diff}: {str([item[k] for k in diff])[:300]} instead of {str([exp[k] for k in diff])[:300]}")
 
         # ---------------- crash injection
-        ccases = [(k, c, v) for k, c, v, o in cases if in_domain(v)][: ctx.n(9, 120)]
+        ccases = [(k, c, v) for k, c, v, o in cases if in_domain(v)][: ctx.n(5, 100)]
         big = {k: ("x%d " % i) * 3000 for i, k in enumerate(KNOWN[:8])}
         big["_chf_"] = H(mtime=9, md5=9)
         ccases.insert(0, ("flat", "cat/big-1", big))
@@ -354,7 +358,13 @@ def run(ctx):
             with open(os.path.join(ref.location, cpv), encoding="utf8", newline="") as f:
                 new_text = f.read()
             mkdirs = [os.path.relpath(e[1], ref.location) for e in events if e[0] == "mkdir"]
-            points = [("event", j) for j in range(len(events))] + [("fsize", rng.randrange(0, max(1, len(new_text.encode("utf8"))))) for _ in range(2)]
+            nev = len(events)
+            points = [("event", j) for j in range(nev)] + [("fsize", rng.randrange(0, max(1, len(new_text.encode("utf8"))))) for _ in range(2)]
+            # error returns instead of deaths: once, persistently (ENOSPC/EIO do not go away), and followed by a death at one of the
+            # operations the error handling itself performs; plus an exception raised while the values are rendered
+            points += [("fault", j) for j in range(nev)] + [("persist", j) for j in range(nev)]
+            points += [("fault+crash", (j, m)) for j in range(nev) for m in (1, 2)]
+            points += [("render-raises", None)]
             for pkind, arg in points:
                 shutil.rmtree(cache.location)
                 os.makedirs(cache.location)
@@ -362,25 +372,53 @@ def run(ctx):
                     os.makedirs(os.path.dirname(os.path.join(cache.location, p)), exist_ok=True)
                     with open(os.path.join(cache.location, p), "w", encoding="utf8", newline="") as f:
                         f.write(c)
-                pid = os.fork()
-                if pid == 0:
+                crashed, status, raised = False, None, None
+                if pkind in ("event", "fsize", "fault+crash"):
+                    pid = os.fork()
+                    if pid == 0:
+                        try:
+                            if pkind == "event":
+                                _c24.trace_on(root, crash_at=arg)
+                            elif pkind == "fault+crash":
+                                _c24.trace_on(root, crash_at=arg[0] + arg[1], faults={arg[0]: "persist"})
+                            else:
+                                signal.signal(signal.SIGXFSZ, signal.SIG_DFL)
+                                resource.setrlimit(resource.RLIMIT_FSIZE, (arg, arg))
+                            cache[cpv] = values
+                        finally:
+                            os._exit(0)
+                    _, status = os.waitpid(pid, 0)
+                    crashed = (os.WIFEXITED(status) and os.WEXITSTATUS(status) == 99) or os.WIFSIGNALED(status)
+                else:
+                    pid = os.getpid()
+                    vals = values
+                    if pkind == "render-raises":
+                        class Unrenderable(str):
+                            def __format__(self, spec):
+                                raise RuntimeError("injected while rendering a value")
+                        vals = dict(values)
+                        vals["KEYWORDS"] = Unrenderable("x")          # sorts between other keys: some lines are already written
+                        vals.setdefault("DEPEND", "a")
+                        vals.setdefault("SLOT", "0")
+                        _c24.trace_on(root)
+                    else:
+                        _c24.trace_on(root, faults={arg: "oserror" if pkind == "fault" else "persist"})
                     try:
-                        if pkind == "event":
-                            _c24.trace_on(root, crash_at=arg)
-                        else:
-                            signal.signal(signal.SIGXFSZ, signal.SIG_DFL)
-                            resource.setrlimit(resource.RLIMIT_FSIZE, (arg, arg))
-                        cache[cpv] = values
+                        cache[cpv] = vals
+                    except Exception as e:
+                        raised = type(e).__name__
                     finally:
-                        os._exit(0)
-                _, status = os.waitpid(pid, 0)
-                crashed = (os.WIFEXITED(status) and os.WEXITSTATUS(status) == 99) or os.WIFSIGNALED(status)
+                        _c24.trace_off()
                 case = {"crash": pkind, "at": arg, "kind": kind, "cpv": cpv, "nkeys": len(values), "had_old": ci % 3 != 2}
+                if raised is not None:
+                    case["store_raised"] = raised
                 ctx.case(case, True, key=repr((ci, pkind, arg)))
                 ctx.count("crash_" + pkind)
-                ctx.count("crashed" if crashed else "completed")
+                ctx.count("crashed" if crashed else "store_raised" if raised else "completed")
                 if pkind == "event" and not crashed:
                     ctx.mismatch(case, f"the child did not crash at operation {arg} (status {status})")
+                if pkind == "render-raises" and raised is None:
+                    ctx.mismatch(case, "the unrenderable value did not make the store raise")
                 snap = snapshot(cache)
                 listed = sorted(cache.keys())
                 # --- the property after the crash
@@ -394,13 +432,28 @@ def run(ctx):
                     elif (item, err) != old_items[k]:
                         ctx.violation(case, f"after the crash another entry changed: {k!r}")
                 if cpv not in listed and cpv in old_items:
-                    ctx.violation(case, "after the crash the previous entry is gone")
+                    ctx.violation(case, "after the crash / failed store the previous entry is gone")
                 for k in old_items:
                     if k not in listed:
                         ctx.violation(case, f"after the crash the entry {k!r} disappeared from keys()")
                 # --- the model at the corresponding prefix
                 tmp_rel = os.path.join(os.path.dirname(cpv), ".update.%d.%s" % (pid, os.path.basename(cpv)))
                 tmp_now = dict(snap).get(tmp_rel)
+                if pkind not in ("event", "fsize"):
+                    if raised is not None and cpv in old_items and get(cache, kind, cpv) != old_items[cpv]:
+                        ctx.violation(case, f"the store failed with {raised} but the previous entry is not what a reader gets any more")
+                    if pkind != "fault+crash":
+                        # the same process tries again (whatever the failed attempt left behind is still there) with a short entry
+                        retry = {"SLOT": "0", "_chf_": H(mtime=4, md5=4)}
+                        try:
+                            cache[cpv] = retry
+                            back = get(cache, kind, cpv)
+                        except Exception as e:
+                            back = (None, f"store raised {type(e).__name__}")
+                        if back != (expected_py(retry, kind, known[kind]), None):
+                            ctx.violation(dict(case, retry="store {'SLOT': '0'} again in the same process"),
+                                          f"a store repeated after the failed one does not read back: {str(back)[:300]}")
+                    continue
                 if pkind == "event":
                     # k = number of model operations completed before the event `arg` of the real trace
                     done = [e for e in events[:arg]]
